@@ -426,8 +426,8 @@ fn gen_value(c: &mut Ctx) -> (NaiveDate, NaiveTime, i32) {
     let frac = match c.rng.below(6) {
         0 => 0u32,
         1 => *c.rng.pick(&[1u32, 999_999_999, 500_000_000, 1_000_000_000, 1_999_999_999, 1_500_000_000]),
-        2 => 1_000_000_000 + c.rng.below(1_000_000_000) as u32,
-        _ => c.rng.below(1_000_000_000) as u32,
+        2 => 1_000_000_000 + c.rng.nanos(),
+        _ => c.rng.nanos(),
     };
     let off = match c.rng.below(8) {
         0 => *c.rng.pick(&[0i32, 60, -60, 86340, -86340, 3600, -3600, 43200, -43200, 19800, -12600, 35940, -35940]),
